@@ -464,18 +464,20 @@ InitSet == CASE Scope = "items" -> InitItems
 Init == c \in InitSet
 
 Label(op, i) == op \o "@" \o ToString(i)
-NodeMutate == /\ Canonical(c.b)
-              /\ LET it == Dec(c.b)
-                     ps == PathSeq(it)
-                 IN \E i \in NodesOf(c, Len(ps)), op \in NodeOps :
-                       /\ Applicable(op, At(it, ps[i]))
-                       /\ c' = [ty |-> c.ty, sid |-> c.sid, b |-> Enc(Subst(it, ps[i], NewNode(op, At(it, ps[i])))),
-                                mut |-> Append(c.mut, Label(op, i)), op |-> op]
-ByteMutate == \E op \in ByteOps : /\ ByteApplicable(op, c.b)
-                                  /\ c' = [ty |-> c.ty, sid |-> c.sid, b |-> ByteMut(op, c.b), mut |-> Append(c.mut, Label(op, 0)), op |-> op]
+\* The successors of a case are computed as a SET by a pure expression: inside an action TLC re-evaluates a LET
+\* definition for every binding of an enclosing quantifier (here: one parse per node and operator).
+MutCase(cc, b, op, i) == [ty |-> cc.ty, sid |-> cc.sid, b |-> b, mut |-> Append(cc.mut, Label(op, i)), op |-> op]
+NodeMutants(cc) ==
+   LET p == Parse(cc.b) IN
+   IF ~p.ok THEN {}
+   ELSE LET it == p.it
+            ps == PathSeq(it)
+            ms == { m \in NodesOf(cc, Len(ps)) \X NodeOps : Applicable(m[2], At(it, ps[m[1]])) }
+        IN { MutCase(cc, Enc(Subst(it, ps[m[1]], NewNode(m[2], At(it, ps[m[1]])))), m[2], m[1]) : m \in ms }
+ByteMutants(cc) == { MutCase(cc, ByteMut(op, cc.b), op, 0) : op \in { o \in ByteOps : ByteApplicable(o, cc.b) } }
 Next == \/ /\ Scope \in {"typed", "seeds", "all"}
            /\ Len(c.mut) < MaxMut
-           /\ (NodeMutate \/ ByteMutate)
+           /\ c' \in NodeMutants(c) \cup ByteMutants(c)
         \/ /\ Scope = "items"
            /\ \E x \in GrowItem(c.it) : c' = ItemCase(x)
         \/ /\ Scope = "bytes"
